@@ -12,8 +12,6 @@ use crate::stream::Stream;
 use crate::user::User;
 use std::rc::Rc;
 
-#[derive(Derivative)]
-#[derivative(Debug(bound = "U: User"))]
 pub struct Project<U, E, G>
 where
     U: User,
@@ -21,7 +19,20 @@ where
     G: AnyGoal<U, E>,
 {
     variables: Vec<LTerm<U, E>>,
-    body: G,
+    // The body is built anew for every state that reaches the goal, from the values the
+    // projected variables have in that state.
+    body: Box<dyn Fn(&[LTerm<U, E>]) -> G>,
+}
+
+impl<U, E, G> std::fmt::Debug for Project<U, E, G>
+where
+    U: User,
+    E: Engine<U>,
+    G: AnyGoal<U, E>,
+{
+    fn fmt(&self, fm: &mut std::fmt::Formatter<'_>) -> std::fmt::Result {
+        write!(fm, "Project({:?})", self.variables)
+    }
 }
 
 impl<U, E, G> Project<U, E, G>
@@ -30,7 +41,10 @@ where
     E: Engine<U>,
     G: AnyGoal<U, E>,
 {
-    pub fn new(variables: Vec<LTerm<U, E>>, body: G) -> InferredGoal<U, E, G> {
+    pub fn new(
+        variables: Vec<LTerm<U, E>>,
+        body: Box<dyn Fn(&[LTerm<U, E>]) -> G>,
+    ) -> InferredGoal<U, E, G> {
         InferredGoal::new(G::dynamic(Rc::new(Project { variables, body })))
     }
 }
@@ -42,11 +56,13 @@ where
     G: AnyGoal<U, E>,
 {
     fn solve(&self, solver: &Solver<U, E>, state: State<U, E>) -> Stream<U, E> {
-        // Walk* each projected variable with the current substitution
-        for v in self.variables.iter() {
-            v.project(|x| state.smap_ref().walk_star(x));
-        }
-        self.body.solve(solver, state)
+        // Walk* each projected variable with the substitution of the state that reached the goal
+        let projected: Vec<LTerm<U, E>> = self
+            .variables
+            .iter()
+            .map(|v| state.smap_ref().walk_star(v))
+            .collect();
+        (*self.body)(&projected).solve(solver, state)
     }
 }
 
